@@ -28,8 +28,31 @@ def crc32c(seed, data):
     return c
 
 
+_tab_be = None
+V1_CHECKSUM = 0x10000        # pseudo feature bit for Cfg: JBD2_FEATURE_COMPAT_CHECKSUM (one crc32 over each transaction's blocks, kept in the commit block)
+
+
+def crc32_be(seed, data):
+    global _tab_be
+    if _tab_be is None:
+        tab = []
+        for i in range(256):
+            c = i << 24
+            for _ in range(8):
+                c = ((c << 1) ^ 0x04C11DB7) & 0xFFFFFFFF if c & 0x80000000 else (c << 1) & 0xFFFFFFFF
+            tab.append(c)
+        _tab_be = tab
+    t = _tab_be
+    c = seed
+    for b in data:
+        c = ((c << 8) & 0xFFFFFFFF) ^ t[((c >> 24) ^ b) & 255]
+    return c
+
+
 class Cfg:
     def __init__(self, bs, first, maxlen, uuid, incompat, seq0, start_rel):
+        self.v1 = bool(incompat & V1_CHECKSUM) and not incompat & (INCOMPAT_CSUM2 | INCOMPAT_CSUM3)
+        incompat &= 0xFFFF
         self.bs, self.first, self.maxlen, self.uuid, self.incompat = bs, first, maxlen, uuid, incompat
         self.seq0, self.start_rel = seq0, start_rel
         self.len = maxlen - first
@@ -95,8 +118,14 @@ def max_tags(cfg):
     return room // cfg.tag_bytes()
 
 
-def enc_commit(cfg, seq, time, bad_csum=False):
+def enc_commit(cfg, seq, time, bad_csum=False, v1_crc=None):
     out = bytearray(header(BT_COMMIT, seq))
+    if v1_crc is not None:
+        # JBD2_CRC32_CHKSUM = 1, JBD2_CRC32_CHKSUM_SIZE = 4, h_chksum[0]
+        out += bytes([1, 4, 0, 0]) + struct.pack(">I", (v1_crc ^ (0x1234567 if bad_csum else 0)) & 0xFFFFFFFF) + b"\0" * 28
+        out += struct.pack(">QI", time, 0)
+        out += b"\0" * (cfg.bs - len(out))
+        return bytes(out)
     out += bytes([4 if cfg.csum else 0, 4 if cfg.csum else 0, 0, 0])
     out += b"\0" * 32
     out += struct.pack(">QI", time, 0)
@@ -142,9 +171,14 @@ def encode_log(cfg, txns):
             pos -= cfg.len
     for x in txns:
         seq = x["seq"]
+        crc1 = 0xFFFFFFFF
         for kind, payload in x["items"]:
             if kind == "D":
                 d, datas, views = enc_desc(cfg, seq, payload)
+                if cfg.v1:
+                    crc1 = crc32_be(crc1, d)
+                    for dd in datas:
+                        crc1 = crc32_be(crc1, dd)
                 if x.get("bad_desc_csum") and cfg.csum:
                     d = d[:-4] + bytes([d[-4] ^ 0xFF]) + d[-3:]
                 put(d, "D %d %d %s" % (seq, 0 if (x.get("bad_desc_csum") and cfg.csum) else 1,
@@ -155,6 +189,6 @@ def encode_log(cfg, txns):
                 put(enc_revoke(cfg, seq, payload), "R %d 1 %s" % (seq, ",".join(str(b) for b in payload)))
         c = x.get("commit")
         if c and not c.get("missing"):
-            bad = bool(c.get("bad_csum")) and cfg.csum
-            put(enc_commit(cfg, seq, c["time"], bad), "C %d %d %d" % (seq, 0 if bad else 1, c["time"]))
+            bad = bool(c.get("bad_csum")) and (cfg.csum or cfg.v1)
+            put(enc_commit(cfg, seq, c["time"], bad, v1_crc=crc1 if cfg.v1 else None), "C %d %d %d" % (seq, 0 if bad else 1, c["time"]))
     return out, pos
